@@ -430,6 +430,10 @@ def run_shard(ctx):
         except instances.ConstructorRejected as e:
             ctx.violation(f"valid-candidate-rejected/{name}", str(e)[:300], {"cls": name, "seedstr": f"C04v/{ctx.seed}/{name}", "what": "valid", "route": "kwargs", "detail": ""})
     online.flush(ctx)
+    if ctx.tier == "thorough" and ctx.shard == 0:
+        # second, independent workload: the repository's own 3592 tests, each an execution the monitor watches
+        from vf.core import suite_under_monitors
+        suite_under_monitors.run(ctx, "suite", ('instance-exists-violating',))
 
 
 def replay(ctx, case):
